@@ -139,35 +139,50 @@ def evaluate(case):
             if L["kind"] == "timeout":
                 ok = [e for e in events if e[3] == "lcancel_ret" and e[2] == "TimeoutExecutor-%s" % N and e[4]["result"] is True and e[4].get("cls") is None]
                 # count outermost cancel() calls made by the timeout thread that returned True
+                # ... and that were the FIRST successful cancel of that future: cancel() on a future somebody else has already
+                # cancelled also returns True, but that is not a time-out.  (Somebody else's cancel at the very same virtual
+                # instant may fall between the timeout thread's done() check and its cancel(): either count is accepted.)
                 depth = 0
                 n_ok = 0
+                n_tie = 0
+                already = {}
+                call_t = None
                 for e in events:
+                    if e[3] == "lcancel_ret" and e[4]["result"] is True and e[2] != "TimeoutExecutor-%s" % N:
+                        already.setdefault(e[4]["fid"], e[1])
                     if e[2] != "TimeoutExecutor-%s" % N:
                         continue
                     if e[3] == "lcancel_call":
+                        if depth == 0:
+                            call_t = e[1]
                         depth += 1
                     elif e[3] == "lcancel_ret":
                         depth -= 1
                         if depth == 0 and e[4]["result"] is True:
-                            n_ok += 1
+                            if e[4]["fid"] not in already:
+                                n_ok += 1
+                            elif already[e[4]["fid"]] >= call_t - 1e-9:
+                                n_tie += 1
+                        if e[4]["result"] is True:
+                            already.setdefault(e[4]["fid"], e[1])
                 got = val(key("timeout", executor=N))
-                if got != n_ok:
-                    bad("timeout-counter", got=got, expected=n_ok)
+                if not (n_ok <= got <= n_ok + n_tie):
+                    bad("timeout-counter", got=got, expected=[n_ok, n_ok + n_tie])
                 if n_ok:
                     nt = True
             if L["kind"] == "cos" and i == len(layers) - 1 and shut:
-                sd = [o for o in sdown if o["ret_seq"] < at][0]
-                depth = 0
                 n_ok = 0
-                for e in events:
-                    if e[2] != sd["thread"] or not (sd["call_seq"] < e[0] < sd["ret_seq"]):
-                        continue
-                    if e[3] in ("lcancel_call", "fcancel_call"):
-                        depth += 1
-                    elif e[3] in ("lcancel_ret", "fcancel_ret"):
-                        depth -= 1
-                        if depth == 0 and e[4]["result"] is True:
-                            n_ok += 1
+                for sd in [o for o in sdown if o["ret_seq"] < at]:  # (with concurrent shutdown() calls: whichever did the sweep)
+                    depth = 0
+                    for e in events:
+                        if e[2] != sd["thread"] or not (sd["call_seq"] < e[0] < sd["ret_seq"]):
+                            continue
+                        if e[3] in ("lcancel_call", "fcancel_call"):
+                            depth += 1
+                        elif e[3] in ("lcancel_ret", "fcancel_ret"):
+                            depth -= 1
+                            if depth == 0 and e[4]["result"] is True:
+                                n_ok += 1
                 got = val(key("shutdown_cancel", executor=N))
                 if got != n_ok:
                     bad("shutdown_cancel", got=got, expected=n_ok)
@@ -298,6 +313,19 @@ def catalog():
                                               ["submit", "ex", "f1", {"script": [["tag"]]}]],
                                     "threads": [[["sleep", 1.0], ["run", "ex", 0]], [["sleep", 1.0], ["cancel", "f1"]]],
                                     "settle": 1.0, "final": sample_ops(["f0", "f1"])}
+    # a future cancelled by the user while the timeout thread is busy (a slow done-callback of a future it has just timed
+    # out runs on it) and whose deadline passes meanwhile is not a time-out
+    out["user-cancel-while-timeout-thread-is-busy"] = {
+        "setup": [["build", "ex", {"base": {"kind": "manual"}, "layers": [LAYER["timeout"]("n0")]}], ["submit", "ex", "f0", {"script": [["tag"]]}],
+                  ["add_cb", "f0", "slow", ["op", ["sleep", 1.0]]], ["sleep", 0.5], ["submit", "ex", "f1", {"script": [["tag"]]}]],
+        "threads": [[["sleep", 0.7], ["cancel", "f1"]]],
+        "settle": 2.5, "final": sample_ops(["f0", "f1"])}
+    # two threads calling shutdown() on the same executor at the same instant: the "executors in use" gauge is decremented once
+    for lname in ("map", "retry", "throttle", "poll", "timeout", "cos"):
+        out["double-shutdown/" + lname] = {
+            "setup": [["build", "ex", {"base": {"kind": "manual"}, "layers": [LAYER[lname]("n0")]}], ["submit", "ex", "f0", {"script": [["tag"]]}], ["sleep", 0.01]],
+            "threads": [[["sleep", 0.5], ["shutdown", "ex", False]], [["sleep", 0.5], ["shutdown", "ex", False]]],
+            "settle": 1.0, "final": [["runall", "ex"], ["sleep", 1.5]] + sample_ops(["f0"])}
     return out
 
 
